@@ -457,3 +457,23 @@ silent("C04", "chunk-boundaries-stored-by-every-entry", _CB_BUILD + [
     E(BASE, "BaseCooccurrenceVectorizer.transform", "        cooccurrences_ = self._build_token_cooccurrence_matrix(\n",
       "        if self.n_threads > 1:\n            self._chunk_boundaries = self._generate_chunk_boundaries(\n                token_sequences, self.n_threads\n            )\n        cooccurrences_ = self._build_token_cooccurrence_matrix(\n")],
        "the same hoist with transform regenerating the boundaries for its own corpus")
+
+# --- round 2: C06 skip-gram list, C05 frequency tables, C09/C10 placeholder lists
+fire("C06", "skipgram-seed-entry-skipped", "R6.6", E(SG, "skip_grams_matrix_coo_data", "        for i, skip_gram in enumerate(skip_gram_data):", "        for skip_gram in skip_gram_data[1:]:"),
+     "seeded r2_C06: the seed entry has been merged with the real (0, 0) pairs; skipping it drops their weight")
+silent("C06", "skipgram-loop-without-enumerate", E(SG, "skip_grams_matrix_coo_data", "        for i, skip_gram in enumerate(skip_gram_data):", "        for skip_gram in skip_gram_data:"),
+       "the unused counter dropped, the whole list still iterated")
+fire("C05", "docfreq-sum-of-fractions", "R5.6", [E(PP, "construct_document_frequency", "    doc_freq = np.zeros(n_tokens)\n", "    doc_freq = np.zeros(n_tokens)\n    doc_weight = 1.0 / len(token_by_doc_sequence)\n"),
+                                                E(PP, "construct_document_frequency", "        doc_freq += np.bincount(\n            [token_dictionary[token] for token in set(doc)], minlength=n_tokens\n        )\n",
+                                                  "        doc_freq[[token_dictionary[token] for token in set(doc)]] += doc_weight\n"),
+                                                E(PP, "construct_document_frequency", "    return doc_freq / len(token_by_doc_sequence)", "    return doc_freq")],
+     "seeded r2_C05: k copies of 1/n are not k/n")
+silent("C05", "docfreq-count-then-divide", [E(PP, "construct_document_frequency", "        doc_freq += np.bincount(\n            [token_dictionary[token] for token in set(doc)], minlength=n_tokens\n        )\n",
+                                              "        doc_freq[[token_dictionary[token] for token in set(doc)]] += 1\n")],
+       "the same optimisation counting integers and dividing once")
+fire("C09", "bpe-empty-string-keeps-placeholder", "R9.7", E(MG, "bpe_encode_all", "        encodings[i] = bpe_encode(strings[i], code_list, max_char_code)\n", "        if len(strings[i]) > 0:\n            encodings[i] = bpe_encode(strings[i], code_list, max_char_code)\n"),
+     "seeded r2_C09: an empty string keeps the uninitialised one-element placeholder")
+fire("C10", "bpe-empty-string-keeps-placeholder", "R10.6", E(MG, "bpe_encode_all", "        encodings[i] = bpe_encode(strings[i], code_list, max_char_code)\n", "        if len(strings[i]) > 0:\n            encodings[i] = bpe_encode(strings[i], code_list, max_char_code)\n"),
+     "seeded r2_C09")
+silent("C09", "bpe-empty-string-explicit", E(MG, "bpe_encode_all", "        encodings[i] = bpe_encode(strings[i], code_list, max_char_code)\n", "        if len(strings[i]) > 0:\n            encodings[i] = bpe_encode(strings[i], code_list, max_char_code)\n        else:\n            encodings[i] = np.zeros(0, dtype=np.int64)\n"),
+       "both arms store the slot")
